@@ -36,6 +36,31 @@ pub mod enc_spec {
         tlv(0x30, enc_int(version) + enc_octets(community) + pdu)
     }
 
+    // peeling the varbind list from the back, as the back-to-front encoder does
+    pub proof fn lemma_varbinds_step(names: Seq<Seq<u8>>, j: int)
+        requires 1 <= j <= names.len()
+        ensures enc_varbinds(names.subrange(j - 1, names.len() as int))
+            == enc_varbind(names[j - 1]) + enc_varbinds(names.subrange(j, names.len() as int))
+    {
+        let s = names.subrange(j - 1, names.len() as int);
+        assert(s.subrange(1, s.len() as int) =~= names.subrange(j, names.len() as int));
+    }
+
+    pub proof fn lemma_enc_int_zero()
+        ensures enc_int(0) == seq![2u8, 1u8, 0u8]
+    {
+        assert(int_octets(0) =~= seq![0u8]);
+        assert(enc_int(0) =~= seq![2u8, 1u8, 0u8]);
+    }
+
+    pub proof fn lemma_enc_int_small(x: int)
+        requires 0 <= x < 128
+        ensures enc_int(x) == seq![2u8, 1u8, x as u8]
+    {
+        assert(int_octets(x) =~= seq![x as u8]);
+        assert(enc_int(x) =~= seq![2u8, 1u8, x as u8]);
+    }
+
     // machine view of floor division / Euclidean remainder by 256 on i64 (arithmetic shift, mask)
     pub proof fn lemma_split_i64(left: i64)
         ensures
